@@ -57,6 +57,10 @@ def mg_program(draw):
         elif op == "MULTIGET":
             coll = draw(st.sampled_from(["c1", "c1", "c1", "a1", "c2"] + (["b1"] if cfg["seed"] else [])))
             specs = [{"kind": draw(st.sampled_from(KINDS)), "k": draw(st.integers(0, 5))} for _ in range(draw(st.integers(0, 8)))]
+            if specs and draw(st.integers(0, 5)) == 0:
+                # a long request (clients ask for hundreds of hrefs at once) in which hrefs recur far apart
+                total = draw(st.sampled_from([51, 64, 100, 101, 130]))
+                specs = (specs * (total // len(specs) + 1))[:total]
             steps.append({"op": "MULTIGET", "fe": fe, "coll": coll, "hrefs": specs, "pools": {"names": (vcf if coll == "a1" else ics) + ["notes.txt", vcf[0]]}})
         else:
             steps.append({"op": "RESTART"})
